@@ -99,6 +99,10 @@ def check(col, prog, tier, profile, fixture=None):
     col.rule("X4" + sfx, "assigning operators delegate to the matching operator; abs; Default = ZERO", floor=6)
     col.rule("X5" + sfx, "ZERO / ONE byte patterns decode to 0.0 and 1.0", floor=2)
 
+    # non-public, asm-free, non-recursive helper functions are judged inlined into their callers
+    helpers = [m for m in crate.bodies if not m.is_closure and m.kind in ("Fn", "AssocFn") and m.vis != "pub" and not util.self_recursive(m)
+               and not (crate.impl_of(m) or {}).get("of_trait") and not any(blk["term"]["k"] == "asm" for blk in m.blocks)]
+    A = util.analyser(helpers)
     nblocks = 0
     for b in crate.bodies:
         asm = [(i, blk["term"]) for i, blk in enumerate(b.blocks) if blk["term"]["k"] == "asm"]
@@ -178,7 +182,7 @@ def check(col, prog, tier, profile, fixture=None):
                 ok = okreg and r_ == (nm, False) and not m.stores
                 why = "al := %s on (self, rhs)%s" % (r_, "" if okreg else "; output register is not eax")
                 # only bit 0 of the register is used
-                I = util.analyse(b)
+                I = A(b)
                 for st in I.final_states:
                     ret = util.ret_term(st)
                     bit0 = ret[0] == "bin" and ret[1] in ("Gt", "Ne") and ret[3] == mk_int(0) and ret[2][0] == "bin" and ret[2][1] == "BitAnd" and ret[2][3] == mk_int(1)
@@ -210,7 +214,7 @@ def check(col, prog, tier, profile, fixture=None):
             continue
         if any(blk["term"]["k"] == "asm" for blk in ob.blocks):
             continue
-        I_ = util.analyse(ob)
+        I_ = A(ob)
         verdict = None
         for st in I_.final_states:
             r = util.ret_term(st)
@@ -244,7 +248,7 @@ def check(col, prog, tier, profile, fixture=None):
     if None in (lt, le, gt, ge, pc):
         raise Anchor("f80 must implement lt, le, gt, ge, partial_cmp explicitly")
     for b, base in ((gt, lt), (ge, le)):
-        I = util.analyse(b)
+        I = A(b)
         for st in I.final_states:
             ret = util.ret_term(st)
             calls = [e for e in st.event_list() if e.kind == "call"]
@@ -257,7 +261,7 @@ def check(col, prog, tier, profile, fixture=None):
                 neg = any(s[0] == "un" and s[1] == "Not" for s in subterms(ret)) or (ret[0] == "bin" and ret[1] == "Eq" and ret[3] == mk_int(0))
                 col.violation("X2" + sfx, key, b.loc(), "%s is not %s with swapped arguments%s" % (b.path, base.name, ": it is a boolean negation of another comparison, which is true for NaN operands" if neg else ""))
     for b in (lt, le):
-        I = util.analyse(b)
+        I = A(b)
         for st in I.final_states:
             ret = util.ret_term(st)
             calls = [e for e in st.event_list() if e.kind == "call" and (e.fn.get("resolved") or e.fn).get("def") in (lt.key, le.key, gt.key, ge.key)]
@@ -267,7 +271,7 @@ def check(col, prog, tier, profile, fixture=None):
                 col.violation("X2" + sfx, key, b.loc(), "%s is the boolean negation of another comparison: a <= b == !(a > b) is false for NaN, so NaN <= x becomes true" % b.path)
             else:
                 col.ok("X2" + sfx, b.loc(), key, "own flag test", nontrivial=False)
-    I = util.analyse(pc)
+    I = A(pc)
     p1_, p2_ = ("param", 1, I.names.get(1)), ("param", 2, I.names.get(2))
 
     def opnd(p_):
@@ -316,7 +320,7 @@ def check(col, prog, tier, profile, fixture=None):
         col.violation("X3" + sfx, "f80|PartialEq-derived", loc, "PartialEq for f80 is derived on the byte array: -0.0 != +0.0 and NaN == NaN, inconsistent with partial_cmp")
     else:
         b = crate.by_key[[i["key"] for i in eqimp["items"] if i["name"] == "eq"][0]]
-        I = util.analyse(b)
+        I = A(b)
         fam = {lt.key, le.key, gt.key, ge.key, pc.key}
         okk = True
         for st in I.final_states:
@@ -341,7 +345,7 @@ def check(col, prog, tier, profile, fixture=None):
         want = body_of(tr[: -len("Assign")], om)
         if b is None or want is None:
             raise Anchor("missing %s / %s impl for f80" % (tr, om))
-        I = util.analyse(b)
+        I = A(b)
         selfp = ("deref", ("param", 1, I.names.get(1)))
         for st in I.final_states:
             calls = [e for e in st.event_list() if e.kind == "call"]
@@ -353,7 +357,7 @@ def check(col, prog, tier, profile, fixture=None):
             else:
                 col.violation("X4" + sfx, key, b.loc(), "%s must be *self = self.%s(rhs) (calls %s)" % (b.path, om, [c.callee for c in calls]))
     ab = util.need_body(crate, "f80::abs")
-    I = util.analyse(ab)
+    I = A(ab)
     negb = body_of("Neg", "neg")
     okabs = bool(I.final_states)
     p1 = ("param", 1, I.names.get(1))
@@ -394,7 +398,7 @@ def check(col, prog, tier, profile, fixture=None):
         col.violation("X4" + sfx, "%s|abs" % fk(ab), ab.loc(), "abs must return -self exactly when self compares below zero and self otherwise (zeros and NaN unchanged)")
     db = body_of("Default", "default")
     if db is not None:
-        I = util.analyse(db)
+        I = A(db)
         okd = all(util.ret_term(st)[0] == "assoc" and util.ret_term(st)[2] == "ZERO" for st in I.final_states)
         if okd:
             col.ok("X4" + sfx, db.loc(), "%s|zero" % fk(db), "Default = ZERO")
@@ -409,7 +413,7 @@ def check(col, prog, tier, profile, fixture=None):
                 cb = b
         if cb is None:
             raise Anchor("constant %s not found" % cname)
-        I = util.analyse(cb)
+        I = A(cb)
         val = None
         for st in I.final_states:
             ret = util.ret_term(st)
